@@ -61,6 +61,7 @@ func (wf *WALFileType) Replay(dryRun bool) error {
 		return fmt.Errorf("seek wal from start for replay:%w", err)
 	}
 	continueRead := true
+	var duplicateErr error
 	for continueRead {
 		msgID, err := wf.readMessageID()
 		if continueRead = fullRead(err); !continueRead {
@@ -84,13 +85,17 @@ func (wf *WALFileType) Replay(dryRun bool) error {
 				break // Break out of switch
 			}
 			tgData[tgID] = tgSerialized
-			// give up Replay if there is already a TG data location in this WAL
+			// give up reading if there is already a TG data location in this WAL: the intact
+			// transactions read so far are still replayed, then the error is reported so that
+			// the file is set aside instead of being deleted
 			if _, ok := offsetTGDataInWAL[tgID]; ok {
 				log.Error(io.GetCallerFileContext(0) + ": Duplicate TG Data in WAL")
-				return wal.ReplayError{
+				duplicateErr = wal.ReplayError{
 					Msg:  fmt.Sprintf("Duplicate TG Data in WAL. tgID=%d", tgID),
 					Cont: true,
 				}
+				continueRead = false
+				break // Break out of switch
 			}
 			// log.Info("Successfully read past TG data for tgID: %v", tgID)
 			// Save the offset of this TG Data for the second pass
@@ -159,6 +164,10 @@ func (wf *WALFileType) Replay(dryRun bool) error {
 			return fmt.Errorf("replay transaction group data. tgID=%d, "+
 				"write transaction size=%d:%w", tgID, len(wtSets), err)
 		}
+	}
+
+	if duplicateErr != nil {
+		return duplicateErr
 	}
 
 	log.Info("Replay of WAL file %s finished", wf.FilePtr.Name())
